@@ -13,6 +13,15 @@ var thoroughAsQuick = []string{
 	"PURE-",    // n + 1 symbolic bytes: > 20 min for the family
 	"GF-mul-",  // every second operand of GF(1024) / GF(4096): > 10 min for the family
 	"GF-div",   // likewise
+	"RS-",      // RS-enc with k <= 3 x e <= 6 and e up to 45, RS-cache up to degree 70: > 25 min for the family
+	"QR-cap",   // all 40 versions (7089 symbolic digits at 40-L): > 10 min for the family
+	"QR-B",     // all 160 rows at once: the process was killed for memory after 7 min
+	"QR-C",     // all 40 versions x 4 levels: fine alone (5 min), but together with the other QR families the check was killed for memory
+	"QR-E",     // n up to 9: VC time-outs (105 inconclusive results)
+	"DM-A",     // n up to 6 symbolic bytes: > 10 min for the family
+	"DM-E",     // capacities up to 1558 codewords: > 10 min for the family
+	"PDF-D",    // up to 1850 letters: > 10 min for the family
+	"AZ-A",     // two symbolic bytes from the initial state: > 10 min
 }
 
 var thoroughDrop = map[string]bool{
